@@ -298,7 +298,7 @@ func c03Histories(c *mc.Ctx) {
 	depth := c.Pick(3, 5)
 	desc := ver + ":"
 	adds := 0
-	nOps := len(c03MenuNames) + 2
+	nOps := len(c03MenuNames) + 4
 
 	// cycle writes the live bundle, and when that is possible continues with what is
 	// read back; returns false after reporting a violation.
@@ -368,6 +368,39 @@ func c03Histories(c *mc.Ctx) {
 				live.Exchanges = live.Exchanges[1:]
 			}
 			c.Transitions(1)
+		case k == len(c03MenuNames)+2:
+			// the first exchange of the live bundle edited IN PLACE (same Exchange object, same body
+			// slice, same header map): a writer that remembers an encoded form per object shows it
+			desc += " edit-first-in-place"
+			if len(model.Exs) > 0 {
+				le := live.Exchanges[0]
+				nb := append([]byte{}, le.Response.Body...)
+				for i := range nb {
+					nb[i] ^= 0x5a
+				}
+				copy(le.Response.Body, nb)
+				le.Response.Status = 404
+				if le.Response.Header == nil {
+					le.Response.Header = http.Header{}
+				}
+				le.Response.Header.Set("X-Edit", "1")
+				m := model.Exs[0]
+				m.Body, m.Status = nb, 404
+				var hs []refbundle.LHeader
+				for _, h := range m.Hdr {
+					if !strings.EqualFold(h.Name, "X-Edit") {
+						hs = append(hs, h)
+					}
+				}
+				m.Hdr = append(hs, refbundle.LHeader{Name: "X-Edit", Values: []string{"1"}})
+				model.Exs[0] = m
+			}
+			c.Transitions(1)
+		case k == len(c03MenuNames)+3:
+			// a write whose result is thrown away (the live objects stay in use)
+			desc += " write-only"
+			c03WriteBytes(live)
+			c.Transitions(1)
 		default:
 			desc += " write+read"
 			if ok, _ := cycle(fmt.Sprintf("@%d", step)); !ok {
@@ -418,7 +451,7 @@ func init() {
 	}
 	grid := &mc.Harness{Name: "C03/grid", Bound: bound, Run: func(c *mc.Ctx) { c03Check(c, "C03/grid", c04GenGrid(c)) }}
 	vars := &mc.Harness{Name: "C03/variants", Bound: bound, Run: func(c *mc.Ctx) { c03Check(c, "C03/variants", c04GenVariants(c)) }}
-	hist := &mc.Harness{Name: "C03/histories", Mode: "explicit-state search over operation histories on one live Bundle (add exchange / remove first / write+read), then three write/read cycles", Run: c03Histories}
+	hist := &mc.Harness{Name: "C03/histories", Mode: "explicit-state search over operation histories on one live Bundle (add exchange / remove first / edit the first exchange in place / write and discard / write+read), then three write/read cycles", Run: c03Histories}
 	register(&mc.Property{
 		ID:    "C03",
 		Level: "model_checking",
